@@ -143,4 +143,381 @@ theorem leaf_agrees (sch : SchemaEval) {d : Doc} {path : String} (hd : PathDom d
     rw [holdsC]; exact matchBits_agrees hd .anyClear v _ hp
   · simp at hp
 
+/-! ### the virtual document `{item: x}` of `$elemMatch` -/
+
+theorem candF_item (x : V) (p : Path) (f : Bool) :
+    candF (.doc [("item", x)]) ("item" :: p) f = candF x p f := by
+  simp [candF, List.lookup]
+
+theorem cand_item (x : V) (p : Path) : cand (.doc [("item", x)]) ("item" :: p) = cand x p :=
+  candF_item x p false
+
+theorem fans_item (x : V) (p : Path) : fans (.doc [("item", x)]) ("item" :: p) = fans x p := by
+  simp [fans, List.lookup]
+
+theorem fans2_item (x : V) (p : Path) : fans2 (.doc [("item", x)]) ("item" :: p) = fans2 x p := by
+  simp [fans2, List.lookup]
+
+theorem leafsAt_congr {r1 r2 : V} {p1 p2 : Path} (h : cand r1 p1 = cand r2 p2) :
+    leafsAt r1 p1 = leafsAt r2 p2 := by
+  unfold leafsAt; rw [h]
+
+mutual
+/-- a condition only sees its root through the candidates of its path -/
+theorem holdsC_congr {r1 r2 : V} {p1 p2 : Path} (h : cand r1 p1 = cand r2 p2) :
+    ∀ c : Cond, holdsC r1 p1 c = holdsC r2 p2 c
+  | .cmp _ _ => by simp only [holdsC, leafsAt_congr h]
+  | .ne _ => by simp only [holdsC, leafsAt_congr h]
+  | .in_ _ => by simp only [holdsC, leafsAt_congr h]
+  | .nin _ => by simp only [holdsC, leafsAt_congr h]
+  | .exists_ _ => by simp only [holdsC, h]
+  | .type _ _ => by simp only [holdsC, leafsAt_congr h]
+  | .size _ => by simp only [holdsC, h]
+  | .all _ => by simp only [holdsC, leafsAt_congr h]
+  | .mod _ _ => by simp only [holdsC, leafsAt_congr h]
+  | .bits _ _ => by simp only [holdsC, leafsAt_congr h]
+  | .not cs => by simp only [holdsC, holdsCs_congr h cs]
+  | .elemOps _ => by simp only [holdsC, h]
+  | .elemFields _ => by simp only [holdsC, h]
+theorem holdsCs_congr {r1 r2 : V} {p1 p2 : Path} (h : cand r1 p1 = cand r2 p2) :
+    ∀ cs : List Cond, holdsCs r1 p1 cs = holdsCs r2 p2 cs
+  | [] => by simp only [holdsCs]
+  | c :: cs => by simp only [holdsCs, holdsC_congr h c, holdsCs_congr h cs]
+end
+
+mutual
+theorem coreC_congr {r1 r2 : V} {p1 p2 : Path} (h : cand r1 p1 = cand r2 p2)
+    (h2 : fans2 r1 p1 = fans2 r2 p2) (ex fo : Bool) :
+    ∀ c : Cond, coreC ex r1 p1 fo c = coreC ex r2 p2 fo c
+  | .cmp _ _ => by simp only [coreC]
+  | .ne _ => by simp only [coreC]
+  | .in_ _ => by simp only [coreC]
+  | .nin _ => by simp only [coreC]
+  | .exists_ _ => by simp only [coreC, h]
+  | .type _ _ => by simp only [coreC]
+  | .size _ => by simp only [coreC, h2]
+  | .all _ => by simp only [coreC, h]
+  | .mod _ _ => by simp only [coreC, leafsAt_congr h]
+  | .bits _ _ => by simp only [coreC]
+  | .not cs => by simp only [coreC, coreCs_congr h h2 ex fo cs]
+  | .elemOps _ => by simp only [coreC, h]
+  | .elemFields _ => by simp only [coreC, h]
+theorem coreCs_congr {r1 r2 : V} {p1 p2 : Path} (h : cand r1 p1 = cand r2 p2)
+    (h2 : fans2 r1 p1 = fans2 r2 p2) (ex fo : Bool) :
+    ∀ cs : List Cond, coreCs ex r1 p1 fo cs = coreCs ex r2 p2 fo cs
+  | [] => by simp only [coreCs]
+  | c :: cs => by simp only [coreCs, coreC_congr h h2 ex fo c, coreCs_congr h h2 ex fo cs]
+end
+
+/-- `elemLoop` over a truth-valued test is `List.any` -/
+theorem elemLoop_toRes (f : V → Res Unit) (g : V → Bool) (xs : List V)
+    (h : ∀ x ∈ xs, f x = toRes (g x)) : elemLoop f xs = toRes (xs.any g) := by
+  induction xs with
+  | nil => rfl
+  | cons x r ih =>
+    rw [elemLoop, h x (by simp), List.any_cons]
+    cases hg : g x
+    · simp only [toRes, Bool.false_eq_true, ↓reduceIte, Bool.false_or]
+      exact ih fun y hy => h y (by simp [hy])
+    · simp [toRes]
+
+/-! ### the recursion over conditions -/
+
+abbrev CondsDom (d : Doc) (path : String) (cs : List Cond) : Prop :=
+  coreCs true (.doc d) (splitPath path) (fans (.doc d) (splitPath path)) cs = true
+
+/-- the value of a field entry as lungo evaluates it (ProcessExpression, non-operator key) -/
+def mField (sch : SchemaEval) (d : Doc) (path : String) (value : V) : Res Unit :=
+  match value with
+  | .doc ((k0, v0) :: exps) =>
+    if isOpKey k0 then mOps sch d path ((k0, v0) :: exps) else matchComp d "" path value
+  | _ => matchComp d "" path value
+
+theorem mExpr_field (sch : SchemaEval) (d : Doc) (pfx key : String) (value : V) (root : Bool)
+    (hk : isOpKey key = false) : mExpr sch d pfx key value root = mField sch d (joinKey pfx key) value := by
+  unfold mExpr mField
+  simp only [hk, Bool.false_eq_true, ↓reduceIte]
+  rfl
+
+theorem mExpr_op (sch : SchemaEval) (d : Doc) (pfx key : String) (value : V)
+    (hk : isOpKey key = true) : mExpr sch d pfx key value false = mOp sch d key pfx value := by
+  unfold mExpr
+  simp [hk]
+
+theorem mOp_not (sch : SchemaEval) (d : Doc) (path : String) (q : List (String × V)) (hq : q ≠ []) :
+    mOp sch d "$not" path (.doc q) = negate (mProcess sch d q path false) := by
+  unfold mOp
+  have : q.isEmpty = false := by cases q <;> simp_all
+  simp [leafOp, this, mNotLoop_negate]
+
+theorem mOp_elemMatch (sch : SchemaEval) (d : Doc) (path : String) (q : List (String × V)) (hq : q ≠ []) :
+    mOp sch d "$elemMatch" path (.doc q) =
+      match (All d (splitPath path) true true).1 with
+      | .arr array => elemLoop (fun item => mProcess sch [("item", item)] q "item" false) array
+      | _ => notMatched := by
+  unfold mOp
+  have : q.isEmpty = false := by cases q <;> simp_all
+  simp only [leafOp, this]
+  simp
+  rfl
+
+theorem toRes_and (a b : Bool) (r : Res Unit) (hr : r = toRes b) :
+    (match toRes a with
+     | .error e => .error e
+     | .ok _ => r) = toRes (a && b) := by
+  cases a <;> simp [toRes, hr]
+
+theorem segOK_item : segOK "item" = true := by decide
+
+theorem nna_item (x : V) (h : noNestedArrays x = true) : noNestedArrays (.doc [("item", x)]) = true := by
+  simp [noNestedArrays, nnaFields, h]
+
+/-- the four statements proved together by induction on the size of the filter value -/
+def StA (sch : SchemaEval) (op : String) (v : V) : Prop :=
+  ∀ (d : Doc) (path : String) (c : Cond), parseCond op v = some c → PathDom d path → CondDom d path c →
+    mOp sch d op path v = toRes (holdsC (.doc d) (splitPath path) c)
+def StB (sch : SchemaEval) (ops : List (String × V)) : Prop :=
+  ∀ (d : Doc) (path : String) (cs : List Cond), parseConds ops = some cs → PathDom d path → CondsDom d path cs →
+    mOps sch d path ops = toRes (holdsCs (.doc d) (splitPath path) cs) ∧
+    mProcess sch d ops path false = toRes (holdsCs (.doc d) (splitPath path) cs)
+def StD (sch : SchemaEval) (v : V) : Prop :=
+  ∀ (d : Doc) (path : String) (cs : List Cond), parseFieldValue v = some cs → PathDom d path → CondsDom d path cs →
+    mField sch d path v = toRes (holdsCs (.doc d) (splitPath path) cs)
+def StC (sch : SchemaEval) (q : List (String × V)) : Prop :=
+  ∀ (x : V) (fcs : List FieldCond), parseFieldConds q = some fcs → noNestedArrays x = true →
+    coreFCs true x fcs = true → fcs.all (fun fc => itemSplitOK fc.key) = true →
+    mProcess sch [("item", x)] q "item" false = toRes (holdsFCs x fcs)
+
+structure AgreeUpTo (sch : SchemaEval) (n : Nat) : Prop where
+  a : ∀ op v, sizeOf v < n → StA sch op v
+  b : ∀ ops, sizeOf ops < n → StB sch ops
+  d : ∀ v, sizeOf v < n → StD sch v
+  c : ∀ q, sizeOf q < n → StC sch q
+
+theorem cond_step (sch : SchemaEval) (n : Nat) (ih : AgreeUpTo sch n) (op : String) (v : V)
+    (hn : sizeOf v < n + 1) : StA sch op v := by
+  intro d path c hp hd hc
+  unfold parseCond at hp
+  by_cases hnot : op = "$not"
+  · subst hnot
+    simp only [beq_self_eq_true, ↓reduceIte] at hp
+    cases v with
+    | doc q =>
+      cases q with
+      | nil => simp at hp
+      | cons e es =>
+        simp only [Option.map_eq_some_iff] at hp
+        obtain ⟨cs, hcs, rfl⟩ := hp
+        have hc' : CondsDom d path cs := by simpa [CondDom, coreC] using hc
+        have ih := (ih.b (e :: es) (by simp at hn ⊢; omega) d path cs hcs hd hc').2
+        rw [mOp_not sch d path (e :: es) (by simp), ih, negate_toRes, holdsC]
+    | _ => simp at hp
+  · have hnot' : (op == "$not") = false := by simpa using hnot
+    by_cases hel : op = "$elemMatch"
+    · subst hel
+      simp only [hnot', Bool.false_eq_true, ↓reduceIte, beq_self_eq_true] at hp
+      cases v with
+      | doc q =>
+        cases q with
+        | nil => simp at hp
+        | cons e es =>
+          obtain ⟨k, w⟩ := e
+          simp only at hp
+          rw [mOp_elemMatch sch d path ((k, w) :: es) (by simp)]
+          by_cases hop : isOpKey k = true
+          · -- operator form
+            simp only [hop, ↓reduceIte, Option.map_eq_some_iff] at hp
+            obtain ⟨cs, hcs, rfl⟩ := hp
+            simp only [CondDom, coreC, Bool.and_eq_true, Bool.not_eq_true'] at hc
+            obtain ⟨⟨hfo, hsplit⟩, hall⟩ := hc
+            have hitem : splitPath "item" = ["item"] := by
+              simp only [itemSplitOK, Bool.and_eq_true, beq_iff_eq] at hsplit; exact hsplit.1
+            obtain ⟨h1, h2⟩ := All_noFan d (splitPath path) true true hd.nna hd.segs hfo
+            rw [h1, holdsC]
+            cases hcand : cand (.doc d) (splitPath path) with
+            | nil => simp [single, toRes, notMatched]
+            | cons c0 cr =>
+              have : cr = [] := by rw [hcand] at h2; simpa using h2
+              subst this
+              have hc0 : noNestedArrays c0.1 = true :=
+                cand_nna _ _ false hd.nna c0 (by
+                  rw [show candF (.doc d) (splitPath path) false = cand (.doc d) (splitPath path) from rfl, hcand]; simp)
+              cases hc1 : c0.1 with
+              | arr a =>
+                simp only [single, hc1, List.any_cons, List.any_nil, Bool.or_false, elemsOf]
+                rw [hc1, noNestedArrays] at hc0
+                apply elemLoop_toRes
+                intro x hx
+                have hxn := (nna_elem hc0 hx).2
+                have hxd : PathDom [("item", x)] "item" :=
+                  ⟨nna_item x hxn, by rw [hitem]; simp [segsOK, segOK_item]⟩
+                have hxc : CondsDom [("item", x)] "item" cs := by
+                  have hx' : coreCs true x [] false cs = true := by
+                    rw [hcand] at hall
+                    simp only [List.flatMap_cons, List.flatMap_nil, List.append_nil, hc1, elemsOf] at hall
+                    exact List.all_eq_true.mp hall x hx
+                  unfold CondsDom
+                  rw [hitem, fans_item, coreCs_congr (cand_item x []) (fans2_item x [])]
+                  simpa [fans] using hx'
+                rw [(ih.b ((k, w) :: es) (by simp at hn ⊢; omega) [("item", x)] "item" cs hcs hxd hxc).2, hitem,
+                  holdsCs_congr (cand_item x [])]
+              | _ => simp [single, hc1, elemsOf, toRes, notMatched]
+          · -- field form
+            have hop' : isOpKey k = false := by simpa using hop
+            simp only [hop', Bool.false_eq_true, ↓reduceIte, Option.map_eq_some_iff] at hp
+            obtain ⟨fcs, hfcs, rfl⟩ := hp
+            simp only [CondDom, coreC, Bool.and_eq_true, Bool.not_eq_true'] at hc
+            obtain ⟨⟨hfo, hsplit⟩, hall⟩ := hc
+            obtain ⟨h1, h2⟩ := All_noFan d (splitPath path) true true hd.nna hd.segs hfo
+            rw [h1, holdsC]
+            cases hcand : cand (.doc d) (splitPath path) with
+            | nil => simp [single, toRes, notMatched]
+            | cons c0 cr =>
+              have : cr = [] := by rw [hcand] at h2; simpa using h2
+              subst this
+              have hc0 : noNestedArrays c0.1 = true :=
+                cand_nna _ _ false hd.nna c0 (by
+                  rw [show candF (.doc d) (splitPath path) false = cand (.doc d) (splitPath path) from rfl, hcand]; simp)
+              cases hc1 : c0.1 with
+              | arr a =>
+                simp only [single, hc1, List.any_cons, List.any_nil, Bool.or_false, elemsOf]
+                rw [hc1, noNestedArrays] at hc0
+                apply elemLoop_toRes
+                intro x hx
+                have hxn := (nna_elem hc0 hx).2
+                have hx' : x.isDoc = true ∧ coreFCs true x fcs = true := by
+                  rw [hcand] at hall
+                  simp only [List.flatMap_cons, List.flatMap_nil, List.append_nil, hc1, elemsOf] at hall
+                  simpa using List.all_eq_true.mp hall x hx
+                rw [ih.c ((k, w) :: es) (by simp at hn ⊢; omega) x fcs hfcs hxn hx'.2 hsplit, hx'.1, Bool.true_and]
+              | _ => simp [single, hc1, elemsOf, toRes, notMatched]
+      | _ => simp at hp
+    · have hel' : (op == "$elemMatch") = false := by simpa using hel
+      simp only [hnot', hel', Bool.false_eq_true, ↓reduceIte] at hp
+      exact leaf_agrees sch hd op v c hp hc
+
+theorem conds_step (sch : SchemaEval) (n : Nat) (ih : AgreeUpTo sch n) (ops : List (String × V))
+    (hn : sizeOf ops < n + 1) : StB sch ops := by
+  intro d path cs hp hd hc
+  cases ops with
+  | nil =>
+    simp only [parseConds, Option.some.injEq] at hp
+    subst hp
+    rw [mOps, mProcess, holdsCs]
+    exact ⟨rfl, rfl⟩
+  | cons kv r =>
+    obtain ⟨k, v⟩ := kv
+    rw [parseConds] at hp
+    by_cases hop : isOpKey k = true
+    · simp only [hop, Bool.not_true, Bool.false_eq_true, ↓reduceIte] at hp
+      cases hpc : parseCond k v with
+      | none => simp [hpc] at hp
+      | some c =>
+        cases hpr : parseConds r with
+        | none => simp [hpc, hpr] at hp
+        | some cs' =>
+          simp only [hpc, hpr, Option.some.injEq] at hp
+          subst hp
+          simp only [CondsDom, coreCs, Bool.and_eq_true] at hc
+          have ihc := ih.a k v (by simp at hn ⊢; omega) d path c hpc hd hc.1
+          have ihr := ih.b r (by simp at hn ⊢; omega) d path cs' hpr hd hc.2
+          rw [mOps, mProcess, mExpr_op sch d path k v hop, ihc, holdsCs]
+          simp only [hop, Bool.not_true, Bool.false_eq_true, ↓reduceIte]
+          exact ⟨toRes_and _ _ _ ihr.1, toRes_and _ _ _ ihr.2⟩
+    · simp [hop] at hp
+
+theorem fieldValue_step (sch : SchemaEval) (n : Nat) (ih : AgreeUpTo sch n) (v : V)
+    (hn : sizeOf v < n + 1) : StD sch v := by
+  intro d path cs hp hd hc
+  have lit : parseFieldValue v = some [.cmp .eq v] → mField sch d path v = matchComp d "" path v →
+      mField sch d path v = toRes (holdsCs (.doc d) (splitPath path) cs) := by
+    intro h1 h2
+    rw [hp] at h1
+    cases h1
+    simp only [CondsDom, coreCs, coreC, Bool.and_eq_true, Bool.and_true] at hc
+    rw [h2, holdsCs, holdsCs, holdsC, Bool.and_true]
+    exact matchLit_agrees hd v (fo_imp hc.2)
+  cases v with
+  | doc q =>
+    cases q with
+    | nil => exact lit rfl rfl
+    | cons e es =>
+      obtain ⟨k, w⟩ := e
+      by_cases hop : isOpKey k = true
+      · simp only [parseFieldValue, hop, ↓reduceIte] at hp
+        simp only [mField, hop, ↓reduceIte]
+        exact (ih.b ((k, w) :: es) (by simp at hn ⊢; omega) d path cs hp hd hc).1
+      · have hop' : isOpKey k = false := by simpa using hop
+        exact lit (by simp [parseFieldValue, hop']) (by simp [mField, hop'])
+  | _ => exact lit rfl rfl
+
+theorem fieldConds_step (sch : SchemaEval) (n : Nat) (ih : AgreeUpTo sch n) (q : List (String × V))
+    (hn : sizeOf q < n + 1) : StC sch q := by
+  intro x fcs hp hx hc hs
+  cases q with
+  | nil =>
+    simp only [parseFieldConds, Option.some.injEq] at hp
+    subst hp
+    rw [mProcess, holdsFCs]; rfl
+  | cons kv r =>
+    obtain ⟨k, v⟩ := kv
+    rw [parseFieldConds] at hp
+    by_cases hop : isOpKey k = true
+    · simp [hop] at hp
+    · have hop' : isOpKey k = false := by simpa using hop
+      simp only [hop', Bool.false_eq_true, ↓reduceIte] at hp
+      cases hpv : parseFieldValue v with
+      | none => simp [hpv] at hp
+      | some cs =>
+        cases hpr : parseFieldConds r with
+        | none => simp [hpv, hpr] at hp
+        | some fcs' =>
+          simp only [hpv, hpr, Option.some.injEq] at hp
+          subst hp
+          simp only [coreFCs, coreFC, Bool.and_eq_true] at hc
+          simp only [List.all_cons, FieldCond.key, Bool.and_eq_true] at hs
+          obtain ⟨⟨hpath, hcs⟩, hcr⟩ := hc
+          have hsplit : splitPath ("item" ++ "." ++ k) = "item" :: splitPath k := by
+            have := hs.1
+            simp only [itemSplitOK, Bool.and_eq_true, beq_iff_eq] at this
+            exact this.2
+          have hjoin : joinKey "item" k = "item" ++ "." ++ k := by simp [joinKey]
+          have hd' : PathDom [("item", x)] ("item" ++ "." ++ k) := by
+            refine ⟨nna_item x hx, ?_⟩
+            rw [hsplit]
+            simp only [pathOK, Bool.and_eq_true] at hpath
+            simp only [segsOK, List.all_cons, segOK_item, Bool.true_and]
+            exact hpath.2
+          have hc' : CondsDom [("item", x)] ("item" ++ "." ++ k) cs := by
+            unfold CondsDom
+            rw [hsplit, fans_item, coreCs_congr (cand_item x _) (fans2_item x _)]
+            exact hcs
+          have ihv := ih.d v (by simp at hn ⊢; omega) [("item", x)] ("item" ++ "." ++ k) cs hpv hd' hc'
+          have ihr := ih.c r (by simp at hn ⊢; omega) x fcs' hpr hx hcr hs.2
+          rw [mProcess, mExpr_field sch _ "item" k v false hop', hjoin, ihv, hsplit,
+            holdsCs_congr (cand_item x _), holdsFCs, holdsFC]
+          exact toRes_and _ _ _ ihr
+
+theorem agree_upTo (sch : SchemaEval) : ∀ n, AgreeUpTo sch n := by
+  intro n
+  induction n with
+  | zero => exact ⟨fun _ _ h => absurd h (Nat.not_lt_zero _), fun _ h => absurd h (Nat.not_lt_zero _),
+      fun _ h => absurd h (Nat.not_lt_zero _), fun _ h => absurd h (Nat.not_lt_zero _)⟩
+  | succ n ih =>
+    exact ⟨fun op v h => cond_step sch n ih op v h, fun ops h => conds_step sch n ih ops h,
+      fun v h => fieldValue_step sch n ih v h, fun q h => fieldConds_step sch n ih q h⟩
+
+/-- one expression operator -/
+theorem cond_agrees (sch : SchemaEval) (op : String) (v : V) : StA sch op v :=
+  (agree_upTo sch (sizeOf v + 1)).a op v (Nat.lt_succ_self _)
+
+/-- an operator document -/
+theorem conds_agree (sch : SchemaEval) (ops : List (String × V)) : StB sch ops :=
+  (agree_upTo sch (sizeOf ops + 1)).b ops (Nat.lt_succ_self _)
+
+/-- the value of a field entry (operator document or literal) -/
+theorem fieldValue_agrees (sch : SchemaEval) (v : V) : StD sch v :=
+  (agree_upTo sch (sizeOf v + 1)).d v (Nat.lt_succ_self _)
+
+
 end Lungo
